@@ -223,15 +223,20 @@ class Vector(MutableSequence[TScalar]):
 
     @classmethod
     def _unpickle(cls, args: tuple[Any, ...], kwargs: dict[str, Any]) -> Self:
+        had_units = UNIT_DESCRIPTION in kwargs["extended_properties"]
         value_type = kwargs.get("value_type")
         if value_type is None:
-            return cls(*args, **kwargs)
-        # The constructor infers the value type from the first value, which need not be the
-        # vector's value type (e.g. an int vector whose first remaining value is a bool), so
-        # create an empty vector of the pickled value type and restore the values.
-        (values,) = args
-        vector = cls([], **kwargs)
-        vector._values = list(values)
+            vector = cls(*args, **kwargs)
+        else:
+            # The constructor infers the value type from the first value, which need not be the
+            # vector's value type (e.g. an int vector whose first remaining value is a bool), so
+            # create an empty vector of the pickled value type and restore the values.
+            (values,) = args
+            vector = cls([], **kwargs)
+            vector._values = list(values)
+        if not had_units:
+            # The constructor adds an empty units entry, which the pickled vector did not have.
+            del vector._extended_properties[UNIT_DESCRIPTION]
         return vector
 
     def __repr__(self) -> str:
